@@ -5,6 +5,7 @@ import (
 	"flag"
 	"fmt"
 	"os"
+	"os/exec"
 	"path/filepath"
 	"runtime"
 	"sort"
@@ -138,6 +139,10 @@ func checkCmd(args []string) {
 		fmt.Print(r.Summary())
 	}
 
+	// native lane: the demonstrations of every finding of this property (fixed or open) are run against
+	// the real, unmodelled code (real SQLite, real archive/tar, real files)
+	nativePassed, nativeFailed := runNative(*verif, *repo, prop)
+
 	// classify
 	violations := 0
 	knownSeen := map[string]*engine.Violation{}
@@ -199,10 +204,16 @@ func checkCmd(args []string) {
 			}
 		}
 	}
+	for _, nf := range nativeFailed {
+		violations++
+		fmt.Printf("VIOLATION property=%s replay=%s (native demonstration of a repaired defect fails again against the real code)\n", prop, filepath.Join(*verif, "replay")+"#"+nf)
+	}
 	for _, l := range violationLines {
 		fmt.Println(l)
 	}
 	sort.Strings(inconclusive)
+	nativeCount = len(nativePassed)
+	nativeNames = nativePassed
 	writeEvidence(*verif, prop, *tier, seed, e, results, cfg, known, inconclusive, time.Since(start), violations, knownSeen)
 	fmt.Printf("check %s tier=%s: harnesses=%d violations=%d known=%d inconclusive=%d load=%.1fs wall=%.1fs\n", prop, *tier, len(results), violations, len(knownSeen), len(inconclusive), loadTime.Seconds(), time.Since(start).Seconds())
 	if violations > 0 {
@@ -215,6 +226,45 @@ func checkCmd(args []string) {
 		os.Exit(3)
 	}
 	os.Exit(0)
+}
+
+var (
+	nativeCount int
+	nativeNames []string
+)
+
+// runNative runs `go test -run 'Test(Finding|Known)_<prop>_'` in /verif/replay (module replaced by the
+// repository's working tree). A failing TestFinding_* means a repaired defect is back.
+func runNative(verif, repo, prop string) (passed, failed []string) {
+	dir := filepath.Join(verif, "replay")
+	if _, err := os.Stat(filepath.Join(dir, "go.mod")); err != nil {
+		return nil, nil
+	}
+	pat := fmt.Sprintf("^Test(Finding|Known|Replay)_%s_", prop)
+	cmd := exec.Command("go", "test", "-count=1", "-json", "-run", pat, ".")
+	cmd.Dir = dir
+	cmd.Env = append(os.Environ(), "GOFLAGS=-mod=mod", "GOPROXY=off", "GOSUMDB=off", "GOTOOLCHAIN=local")
+	if repo != "/repo" {
+		// the replay module points at /repo; other locations are not supported by the native lane
+		return nil, nil
+	}
+	out, _ := cmd.Output()
+	for _, line := range strings.Split(string(out), "\n") {
+		var ev struct {
+			Action string
+			Test   string
+		}
+		if json.Unmarshal([]byte(line), &ev) != nil || ev.Test == "" || strings.Contains(ev.Test, "/") {
+			continue
+		}
+		switch ev.Action {
+		case "pass":
+			passed = append(passed, ev.Test)
+		case "fail":
+			failed = append(failed, ev.Test)
+		}
+	}
+	return passed, failed
 }
 
 func witnessText(v *engine.Violation) string {
@@ -353,7 +403,8 @@ func writeEvidence(verif, prop, tier string, seed int, e *engine.Engine, results
 	cov := map[string]interface{}{
 		"states":                        max(states, 1),
 		"transitions":                   max(transitions, 1),
-		"traces_validated_against_impl": 0,
+		"traces_validated_against_impl": nativeCount,
+		"native_demonstrations_passed":  nativeNames,
 		"samples":                       samples,
 		"explanation":                   "states = symbolic paths of the real SSA explored (each path stands for every input satisfying its path condition); transitions = SMT queries discharged; assertions are decided by unsat of the negated assertion under the path condition",
 		"harnesses":                     harnesses,
